@@ -904,6 +904,130 @@ Proof.
 Qed.
 
 
+(* ---- strings: parts are pushed left to right, JoinString pops them last to first *)
+Lemma sapp_assoc : forall a b c : string, append (append a b) c = append a (append b c).
+Proof. induction a; simpl; intros; [reflexivity | f_equal; apply IHa]. Qed.
+
+Lemma sapp_nil_r : forall a : string, append a EmptyString = a.
+Proof. induction a; simpl; [reflexivity | f_equal; assumption]. Qed.
+
+Lemma sconcat_cons : forall x (xs : list string), xs <> [] ->
+  String.concat EmptyString (x :: xs) = append x (String.concat EmptyString xs).
+Proof. intros x xs H. destruct xs; [contradiction | reflexivity]. Qed.
+
+Lemma sconcat_snoc : forall (l : list string) s,
+  String.concat EmptyString (l ++ [s]) = append (String.concat EmptyString l) s.
+Proof.
+  induction l as [|x l IH]; intro s.
+  - reflexivity.
+  - change ((x :: l) ++ [s]) with (x :: (l ++ [s])).
+    rewrite sconcat_cons by (destruct l; discriminate). rewrite IH.
+    destruct l as [|y r].
+    + reflexivity.
+    + rewrite (sconcat_cons x (y :: r)) by discriminate. rewrite sapp_assoc. reflexivity.
+Qed.
+
+Inductive part_rel : list (value Q) -> string -> Prop :=
+| PR_fixed : forall s, part_rel [VStr s] s
+| PR_plain : forall v, part_rel [VFmt None; v] (to_str O v)
+| PR_spec : forall spec v str, fmt_spec O spec v = Ok str -> part_rel [VFmt (Some spec); v] str.
+
+Lemma join_pop_ok : forall rps rstrs, Forall2 part_rel rps rstrs ->
+  forall stk acc,
+    join_pop O (length rps) (concat rps ++ stk) acc
+    = Ok (append (String.concat EmptyString (rev rstrs)) acc, stk).
+Proof.
+  induction 1 as [|p str rps rstrs Hp Hr IH]; intros stk acc.
+  - reflexivity.
+  - simpl length. simpl concat. rewrite <- app_assoc. simpl rev. rewrite sconcat_snoc, sapp_assoc.
+    destruct Hp as [s | v | spec v str' Hf]; simpl.
+    + apply IH.
+    + apply IH.
+    + rewrite Hf. simpl. apply IH.
+Qed.
+
+Lemma Forall2_len {A B} (R : A -> B -> Prop) : forall l l', Forall2 R l l' -> length l = length l'.
+Proof. induction 1; simpl; congruence. Qed.
+
+Lemma Forall2_rev {A B} (R : A -> B -> Prop) : forall l l', Forall2 R l l' -> Forall2 R (rev l) (rev l').
+Proof.
+  induction 1; simpl; [constructor|]. apply Forall2_app; [assumption | constructor; [assumption | constructor]].
+Qed.
+
+Definition part_sub (ce : cenv) (p : string + (expr Q * option string)) : nat -> nat -> @frag Q :=
+  match p with
+  | inl s => fun nk na => {| f_consts := [CString s]; f_code := [ILoadConstant nk]; f_na := na |}
+  | inr (a, spec) => fun nk na =>
+      let fa := cexpr ce a nk na in
+      {| f_consts := f_consts fa ++ [CFmt spec];
+         f_code := f_code fa ++ [ILoadConstant (nk + length (f_consts fa))];
+         f_na := f_na fa |}
+  end.
+
+Lemma ok_parts : forall n, expr_ok n -> forall vg vn vf L ce fi fp frs parts strs,
+  cenv_rel ce vg vn vf ->
+  evals (fun p : string + (expr Q * option string) =>
+           match p with
+           | inl s => Ok s
+           | inr (a, None) => bind (eval O stale lits n W vg vn vf L a) (fun v => Ok (to_str O v))
+           | inr (a, Some spec) => bind (eval O stale lits n W vg vn vf L a) (fun v => fmt_spec O spec v)
+           end) parts = Ok strs ->
+  exists pushes, Forall2 (comp_ok ce L fi fp frs) (map (part_sub ce) parts) pushes /\
+                 Forall2 part_rel pushes strs.
+Proof.
+  intros n IH vg vn vf L ce fi fp frs parts strs Hrel. revert strs.
+  induction parts as [|p parts IHp]; simpl; intros strs H.
+  - inversion H. exists []. split; constructor.
+  - apply bind_ok in H. destruct H as (str & Hstr & H). apply bind_ok in H. destruct H as (strs' & Hs & E).
+    inversion E; subst strs; clear E.
+    destruct (IHp _ Hs) as (pushes & F1 & F2).
+    assert (Interp : forall a spec v, eval O stale lits n W vg vn vf L a = Ok v ->
+              comp_ok ce L fi fp frs (part_sub ce (inr (a, spec))) [VFmt spec; v]).
+    { intros a spec v Hv.
+      apply (ok_then ce L fi fp frs (cexpr ce a) _ [v] [VFmt spec; v]
+               (fun nk na => [ILoadConstant (nk + length (f_consts (cexpr ce a nk na)))])
+               (fun _ _ => [CFmt spec])).
+      - eapply IH; eassumption.
+      - intros. simpl. split; reflexivity.
+      - intros nk na ip stk s Hm Hs' Hl Ha Hk. exists 1. simpl csize.
+        eapply run_one; [exact Ha|]. simpl. rewrite (consts_at_nth _ _ _ Hk). reflexivity. }
+    destruct p as [s | [a [spec|]]].
+    + inversion Hstr; subst str.
+      exists ([VStr s] :: pushes). split; constructor; try assumption.
+      * apply (ok_const ce L fi fp frs (CString s)).
+      * constructor.
+    + apply bind_ok in Hstr. destruct Hstr as (v & Hv & Hf).
+      exists ([VFmt (Some spec); v] :: pushes). split; constructor; try assumption.
+      * apply Interp. exact Hv.
+      * constructor. exact Hf.
+    + apply bind_ok in Hstr. destruct Hstr as (v & Hv & Hf). inversion Hf; subst str.
+      exists ([VFmt None; v] :: pushes). split; constructor; try assumption.
+      * apply Interp. exact Hv.
+      * constructor.
+Qed.
+
+Lemma ok_string : forall n, expr_ok n -> forall vg vn vf L parts v ce fi fp frs,
+  fst lits = true ->
+  eval O stale lits (S n) W vg vn vf L (EString parts) = Ok v ->
+  cenv_rel ce vg vn vf ->
+  comp_ok ce L fi fp frs (cexpr ce (EString parts)) [v].
+Proof.
+  intros n IH vg vn vf L parts v ce fi fp frs Hlit H Hrel. simpl in H. rewrite Hlit in H. simpl in H.
+  apply bind_ok in H. destruct H as (strs & Hstrs & Hv). inversion Hv; subst v; clear Hv.
+  destruct (ok_parts n IH vg vn vf L ce fi fp frs parts strs Hrel Hstrs) as (pushes & F1 & F2).
+  apply (ok_emit ce L fi fp frs (cseq (map (part_sub ce) parts)) _ (concat (rev pushes))
+           [VStr (String.concat EmptyString strs)]
+           (fun _ _ => chk16 (length parts) (IJoinString (length parts)))).
+  - apply cseq_ok. exact F1.
+  - intros. simpl. split; reflexivity.
+  - intros nk na ip stk s Hm Hs Hl. apply chk16_ok in Hm. destruct Hm as [Hm _]. rewrite Hm.
+    simpl.
+    assert (El : length parts = length (rev pushes)).
+    { rewrite rev_length. rewrite <- (map_length (part_sub ce) parts). eapply Forall2_len. exact F1. }
+    rewrite El. rewrite (join_pop_ok _ _ (Forall2_rev _ _ _ F2)).
+    rewrite rev_involutive, sapp_nil_r. reflexivity.
+Qed.
+
 Hypothesis Hlits : lits = (false, false).
 
 Theorem expr_correct : RelW -> forall n, expr_ok n.
